@@ -14,6 +14,8 @@ from sa.rules import ctor as CT
 from sa.rules import det as D
 from sa.rules import falsy as FA
 from sa.rules import file as F
+from sa.rules import hole as H
+from sa.rules import ladder as L
 from sa.rules import fwd as FW
 from sa.rules import mod as M
 from sa.rules import null as N
@@ -88,9 +90,11 @@ DET1_ACCEPTED = {
 }
 
 spec("C01", "Docstring round trip",
-     [TB.rule_table_style, N.rule_null2, coord("rule_coord_docstring", "docstring_parsers.parse_docstring", "emit.docstring"),
+     [TB.rule_table_style, N.rule_null2, H.rule_invented_default, H.rule_empty_hole, coord("rule_coord_docstring", "docstring_parsers.parse_docstring", "emit.docstring"),
       det3("docstring", "emit.docstring", "docstring_parsers.parse_docstring"), pit("docstring", "emit.docstring", "docstring_parsers.parse_docstring")],
-     "Necessary conditions decided on the source: (TABLE-style) per docstring style, every section header / line marker the emitter writes contains a "
+     "Necessary conditions decided on the source: (INVENTED-DEFAULT) on the docstring reader's path a default is only ever taken from the text: every call of a function "
+     "that writes the IR key 'default' with something other than what the default reader extracted, when one of its flag parameters is true, passes that flag as a constant "
+     "false; (EMPTY-HOLE) the explicit default '' is written as a value the reader recognises, never as the empty text; (TABLE-style) per docstring style, every section header / line marker the emitter writes contains a "
      "detection token of that style, none of a style detected earlier, and is a header the style's scanner splits on; ARG/RETURN token tables are subsets of "
      "TOKENS. (NULL-2) the pending-parameter slot [None, {}] of the ReST parser cannot reach the name post-processing, which dereferences the name, without a "
      "test of its name element (the 'documents only a return value' crash). (COORD) the scanners and the writer never cut a docstring at a position that was measured on a stripped / case-folded / otherwise length-changed copy of it. (DET-3, scoped) no function on this property's code path writes state that outlives the call (module globals/objects, function or class attributes, mutated mutable defaults, memoised mutable results): the conversion is not history-dependent. (LATE-BIND / STALE-CAPTURE / SHARED-DEFAULT / STR-MEMBER, scoped) on this property's code path no closure created per iteration reads its loop variable late, no partial / lambda default captures a name that is rebound before the call, no mutable default is mutated, returned or stored, and no membership test is made against an identifier-like string (a tuple that lost its comma).",
@@ -141,8 +145,10 @@ spec("C06", "Emitted code is valid Python",
 
 spec("C07", "Parsing faithful to Python's view",
      [lambda prog, rep, tier: D.rule_det1(prog, rep, tier, scope=prog.reachable([prog.fn("parse.function"), prog.fn("parse.class_")]), accepted=DET1_ACCEPTED),
-      A.rule_align_parse, O.rule_sigcover, O.rule_first_match, O.rule_kwarg_last, O.rule_order_merge, det3("parse", "parse.function", "parse.class_"), pit("parse", "parse.function", "parse.class_")],
-     "Necessary conditions: (DET-1) on the parse path no iteration order of an unordered collection reaches the parameter mapping (order independent of run-to-run "
+      A.rule_align_parse, O.rule_sigcover, O.rule_first_match, O.rule_kwarg_last, O.rule_order_merge, H.rule_invented_default, det3("parse", "parse.function", "parse.class_"), pit("parse", "parse.function", "parse.class_")],
+     "Necessary conditions: (INVENTED-DEFAULT) the docstring reader never invents a default (a flag that makes a helper write a zero value / None placeholder as 'default' is "
+     "a constant false on every call on the reader's path): the docstring takes precedence in the merge, so an invented default makes a parameter Python sees as required optional; "
+     "(DET-1) on the parse path no iteration order of an unordered collection reaches the parameter mapping (order independent of run-to-run "
      "variation); (ALIGN-parse) signature defaults stay aligned with their arguments; (SIGCOVER) args, kwonlyargs and **kwarg each reach the result on some read that "
      "is not guarded by docstring-derived data; (FIRST-MATCH) the method merged into a class is the first definition of that name in breadth-first order (the class's own, not a nested class's). (KWARG-LAST) a documented `**kwargs` is out of the parameter mapping while the signature merge appends the undocumented parameters and is inserted (or moved to the end) afterwards, so it stays the last parameter as in the signature. (DET-3, scoped) no function on this property's code path writes state that outlives the call (module globals/objects, function or class attributes, mutated mutable defaults, memoised mutable results): the conversion is not history-dependent. (LATE-BIND / STALE-CAPTURE / SHARED-DEFAULT / STR-MEMBER, scoped) on this property's code path no closure created per iteration reads its loop variable late, no partial / lambda default captures a name that is rebound before the call, no mutable default is mutated, returned or stored, and no membership test is made against an identifier-like string (a tuple that lost its comma). (ORDER-merge) the signature merge inserts the undocumented parameters in signature order (no LIFO popitem / reversed source).",
      floors={"DET-1": 2, "ALIGN-parse": 1, "SIGCOVER": 3},
@@ -150,12 +156,13 @@ spec("C07", "Parsing faithful to Python's view",
      not_decided="that the order is the source order (documented-first is value-level), precedence of documented information, prose attribution, the inspect path")
 
 spec("C08", "Fixed point after one pass",
-     [TB.rule_table_announce, scoped(FA.rule_falsy, "falsy_defaults", "defaults_utils.set_default_doc", "defaults_utils.extract_default", "emitter_utils.interpolate_defaults"),
+     [TB.rule_table_announce, H.rule_empty_hole, scoped(FA.rule_falsy, "falsy_defaults", "defaults_utils.set_default_doc", "defaults_utils.extract_default", "emitter_utils.interpolate_defaults"),
       coord("rule_coord_defaults", "defaults_utils.extract_default", "defaults_utils.set_default_doc"), named(FW.rule_fwd, "rule_fwd", accepted=FWD_ACCEPTED), O.rule_order_merge, det3("all", "emit.docstring", "emit.class_", "emit.function", "emit.argparse_function", "parse.docstring", "parse.class_", "parse.function", "parse.argparse_ast"), pit("all", "emit.docstring", "emit.class_", "emit.function", "emit.argparse_function", "parse.docstring", "parse.class_", "parse.function", "parse.argparse_ast"),
       C.rule_call_dispatch],
      "Necessary condition: (TABLE-announce b) each writer of the default sentence recognises its own sentence as 'already present' - either by calling the reader "
-     "itself or by a substring of the written phrase - otherwise one more sentence is appended on every pass. (COORD) no position measured on a transformed copy of the prose (strip / casefold / replace change lengths; also through a search helper given a normalising callable) is used to cut the original prose. (FWD) an option the caller was given (word_wrap, emit_default_doc, docstring_format, ...) is forwarded to every callee that has the same option with a default - directly, through a partial or a wrapper; the confirmed exceptions are listed with reasons (props.FWD_ACCEPTED) or lie on the live-object path. (DET-3, scoped) no function on this property's code path writes state that outlives the call (module globals/objects, function or class attributes, mutated mutable defaults, memoised mutable results): the conversion is not history-dependent. (LATE-BIND / STALE-CAPTURE / SHARED-DEFAULT / STR-MEMBER, scoped) on this property's code path no closure created per iteration reads its loop variable late, no partial / lambda default captures a name that is rebound before the call, no mutable default is mutated, returned or stored, and no membership test is made against an identifier-like string (a tuple that lost its comma). (ORDER-merge) as under C07.",
-     floors={"TABLE-announce": 3},
+     "itself or by a substring of the written phrase - otherwise one more sentence is appended on every pass; (EMPTY-HOLE) the value written behind the announcement cannot be the empty text for the explicit default '': a bare "
+     "announcement is not recognised by the reader, so the sentence would be appended again on every pass. (COORD) no position measured on a transformed copy of the prose (strip / casefold / replace change lengths; also through a search helper given a normalising callable) is used to cut the original prose. (FWD) an option the caller was given (word_wrap, emit_default_doc, docstring_format, ...) is forwarded to every callee that has the same option with a default - directly, through a partial or a wrapper; the confirmed exceptions are listed with reasons (props.FWD_ACCEPTED) or lie on the live-object path. (DET-3, scoped) no function on this property's code path writes state that outlives the call (module globals/objects, function or class attributes, mutated mutable defaults, memoised mutable results): the conversion is not history-dependent. (LATE-BIND / STALE-CAPTURE / SHARED-DEFAULT / STR-MEMBER, scoped) on this property's code path no closure created per iteration reads its loop variable late, no partial / lambda default captures a name that is rebound before the call, no mutable default is mutated, returned or stored, and no membership test is made against an identifier-like string (a tuple that lost its comma). (ORDER-merge) as under C07.",
+     floors={"TABLE-announce": 3, "EMPTY-HOLE": 1},
      technique="constant folding of writer phrase / reader announcement tables; guard analysis of the writer",
      not_decided="byte identity of the 2nd and 3rd emission in general (quote guards, indentation, wrapping are value-level)")
 
@@ -234,16 +241,21 @@ spec("C16", "Bodies carried verbatim",
      not_decided="positional special cases of body splicing (slices of the runtime body list), trailing-return handling")
 
 spec("C17", "Defaults through prose",
-     [TB.rule_table_announce, scoped(FA.rule_falsy, "falsy_defaults", "defaults_utils.set_default_doc", "defaults_utils.extract_default", "emitter_utils.interpolate_defaults"),
+     [TB.rule_table_announce, L.rule_type_ladder, H.rule_empty_hole, scoped(FA.rule_falsy, "falsy_defaults", "defaults_utils.set_default_doc", "defaults_utils.extract_default", "emitter_utils.interpolate_defaults"),
       coord("rule_coord", "defaults_utils.extract_default", "defaults_utils.set_default_doc"),
       det3("defaults", "defaults_utils.set_default_doc", "defaults_utils.extract_default", "emitter_utils.interpolate_defaults"), pit("defaults", "defaults_utils.set_default_doc", "defaults_utils.extract_default", "emitter_utils.interpolate_defaults")],
-     "Necessary conditions: (COORD) in the reader and the writer of default sentences no position measured on a transformed copy of the prose (strip / casefold / "
+     "Necessary conditions: (TYPE-LADDER) the ladder of tests and conversions that turns the announced text into a value is run abstractly over the finite classes of "
+     "default text (unsigned / signed integer, fractional / whole-valued / exponent float, boolean, None, unquoted word, quoted string) crossed with the declared type: "
+     "every class comes out with its own Python type (integers stay int, floats stay float, booleans bool, strings str) and no exception escapes; "
+     "(EMPTY-HOLE) the value written behind the default announcement cannot be the empty text for the explicit default '' (a may-be-empty analysis of the hole expression through the quoting helper's returns); "
+     "(COORD) in the reader and the writer of default sentences no position measured on a transformed copy of the prose (strip / casefold / "
      "replace change lengths; also through a search helper given a normalising callable) is used to cut the original prose, which is how 'removing the sentence leaves the "
      "surrounding prose unchanged' breaks by a few characters; (TABLE-announce a) the sentence the writer produces contains an announcement the reader looks for; (c) the docstring writer skips writing a default "
      "only when the prose contains something the reader would recognise as an announcement (decided by calling the reader itself, or by substrings that contain an announcement). (DET-3, scoped) no function on this property's code path writes state that outlives the call (module globals/objects, function or class attributes, mutated mutable defaults, memoised mutable results): the conversion is not history-dependent. (LATE-BIND / STALE-CAPTURE / SHARED-DEFAULT / STR-MEMBER, scoped) on this property's code path no closure created per iteration reads its loop variable late, no partial / lambda default captures a name that is rebound before the call, no mutable default is mutated, returned or stored, and no membership test is made against an identifier-like string (a tuple that lost its comma).",
-     floors={"TABLE-announce": 3, "COORD": 3},
-     technique="constant folding of the announcement tables, guard analysis of the writer, forward dataflow of string-coordinate provenance with callee return summaries",
-     not_decided="the numeric/boolean coercion ladder, end-of-value scan, the arithmetic of the removal offsets themselves (character-level)")
+     floors={"TABLE-announce": 3, "COORD": 3, "TYPE-LADDER": 8, "EMPTY-HOLE": 1},
+     technique="constant folding of the announcement tables, guard analysis of the writer, forward dataflow of string-coordinate provenance with callee return summaries; "
+               "finite abstract interpretation of the conversion ladder over classes of literal text (what each str predicate, numeric constructor and literal_eval does on a class is tabulated in the rule)",
+     not_decided="end-of-value scan (where the announced value stops), the arithmetic of the removal offsets themselves, values outside the tabulated classes (character-level)")
 
 spec("C18", "Wrapping / line length transparent",
      [T.rule_typeflow, T.rule_wrap_last, W.rule_wrap_breaks, W.rule_wrap_cont, W.rule_rejoin_uniform, W.rule_scan_after_rejoin, coord("rule_coord_defaults", "defaults_utils.extract_default", "defaults_utils.set_default_doc"), det3("emit", "emit.docstring", "emit.class_", "emit.function", "emit.argparse_function"), pit("emit", "emit.docstring", "emit.class_", "emit.function", "emit.argparse_function")],
